@@ -21,9 +21,13 @@ func init() {
 	addReplay("C10", "audit", replaySecAudit)
 }
 
+// auditClassicalXRef makes auditWriter write a classical xref table and trailer
+// (which trailerEncrypt can find without the library's xref reader).
+var auditClassicalXRef bool
+
 func auditWriter(version pdf.Version, ids [][]byte) (*pdf.Writer, *memWriter, pdf.Reference, error) {
 	out := &memWriter{}
-	w, err := pdf.NewWriter(out, version, &pdf.WriterOptions{UserPassword: "user", OwnerPassword: "owner", UserPermissions: pdf.PermCopy, ID: ids})
+	w, err := pdf.NewWriter(out, version, &pdf.WriterOptions{UserPassword: "user", OwnerPassword: "owner", UserPermissions: pdf.PermCopy, ID: ids, HumanReadable: auditClassicalXRef})
 	if err != nil {
 		return nil, nil, 0, err
 	}
@@ -76,10 +80,19 @@ func auditLongString(version pdf.Version, n int) (key, desc string) {
 
 // ---- (2) the ID between NewWriter and Close ----
 
+// auditIDLast is the file written by the last auditID call whose Close succeeded.
+var auditIDLast []byte
+
 // auditID returns the violation (if any), whether Close refused, and the
 // closeid correspondence line.
 func auditID(version pdf.Version, variant string) (key, desc string, refused bool, op, impl string) {
 	ids := [][]byte{[]byte("0123456789abcdef"), []byte("fedcba9876543210")}
+	switch {
+	case strings.HasPrefix(variant, "generated"):
+		ids = nil // the Writer draws the ID itself (both elements may share one slice)
+	case strings.HasPrefix(variant, "one-given"):
+		ids = ids[:1]
+	}
 	w, out, ref, err := auditWriter(version, ids)
 	if err != nil {
 		return "", "NewWriter: " + err.Error(), true, "", ""
@@ -101,6 +114,12 @@ func auditID(version pdf.Version, variant string) (key, desc string, refused boo
 		w.GetMeta().ID[0][0] ^= 0x55
 	case "second-only":
 		w.GetMeta().ID = [][]byte{bytes.Clone(w.GetMeta().ID[0]), []byte("a-new-second-id!")}
+	case "edit-byte-0", "generated-edit-byte-0", "one-given-edit-byte-0":
+		// an in-place edit of the bytes MetaInfo hands out: Close must notice (the handler keeps
+		// its own copy of ID[0]) or the file must still open
+		w.GetMeta().ID[0][3] ^= 0xff
+	case "edit-byte-1", "generated-edit-byte-1", "one-given-edit-byte-1":
+		w.GetMeta().ID[1][3] ^= 0xff
 	}
 	atClose := "nil"
 	if cur := w.GetMeta().ID; cur != nil {
@@ -111,6 +130,7 @@ func auditID(version pdf.Version, variant string) (key, desc string, refused boo
 		return "", "Close refused: " + err.Error(), true, op, "err " + errClass(err)
 	}
 	impl = "ok"
+	auditIDLast = out.Bytes()
 	for _, pw := range []string{"user", "owner"} {
 		rd, err := auditOpen(out.Bytes(), pw)
 		if err != nil {
@@ -124,6 +144,10 @@ func auditID(version pdf.Version, variant string) (key, desc string, refused boo
 	}
 	return "", "opens", false, op, impl
 }
+
+var auditIDVariants = []string{"unchanged", "reuse-callers-slices", "replace", "clear", "modify-in-place", "second-only",
+	"edit-byte-0", "edit-byte-1", "generated", "generated-edit-byte-0", "generated-edit-byte-1",
+	"one-given-edit-byte-0", "one-given-edit-byte-1"}
 
 // ---- (3) filter chains with /Crypt ----
 
@@ -315,11 +339,28 @@ func runSecAudit(c *Ctx, prop string) {
 			}
 		}
 	}
+	for vi, v := range []pdf.Version{pdf.V1_3, pdf.V1_4, pdf.V1_7, pdf.V2_0} {
+		for ki, kind := range []string{"string", "array", "dict"} {
+			for mi, mode := range []string{"seekable", "set-after-first", "plain"} {
+				n := 2 + (vi+ki+mi)%4
+				key, desc := auditPlaceholderMulti(prop, v, kind, n, mode)
+				c.Case(fmt.Sprintf("placeholder-multi %s %s %d %s", verName(v), kind, n, mode), true)
+				c.Stat("audit-placeholder-multi")
+				if key != "" {
+					c.Violate("audit", key, desc, fmt.Sprintf("phmulti %s %d %s %d %s", prop, int(v), kind, n, mode))
+				}
+			}
+		}
+	}
+	if prop == "C10" {
+		auditPlaceholderSpec(c)
+		auditIDSpec(c)
+	}
 	if prop != "C09" {
 		return
 	}
 	for _, v := range []pdf.Version{pdf.V1_3, pdf.V1_4, pdf.V1_7, pdf.V2_0} {
-		for _, variant := range []string{"unchanged", "reuse-callers-slices", "replace", "clear", "modify-in-place", "second-only"} {
+		for _, variant := range auditIDVariants {
 			key, desc, refused, op, impl := auditID(v, variant)
 			c.Case(fmt.Sprintf("id %s %s", verName(v), variant), true)
 			if op != "" && impl != "" {
@@ -426,6 +467,163 @@ func auditPlaceholder(prop string, version pdf.Version, mode string) (key, desc 
 	return "", "reads back"
 }
 
+// auditPlaceholderMulti formats one Placeholder into n different indirect
+// objects (and twice into the first one) before its value is set; the value
+// is a string, or an array or dictionary holding one.  Each blank must get
+// the ciphertext made with the key of the object it sits in.
+func auditPlaceholderMulti(prop string, version pdf.Version, kind string, n int, mode string) (key, desc string) {
+	defer func() {
+		if p := recover(); p != nil {
+			key, desc = prop+"-placeholder-panic", fmt.Sprintf("panic: %v", p)
+		}
+	}()
+	var out secOutput = &memSeekWriter{}
+	if mode == "plain" {
+		out = &memWriter{}
+	}
+	w, err := pdf.NewWriter(out, version, &pdf.WriterOptions{UserPassword: "user", OwnerPassword: "owner", HumanReadable: version < pdf.V1_5 || n%2 == 0})
+	if err != nil {
+		return "", "NewWriter: " + err.Error()
+	}
+	pages := w.Alloc()
+	w.GetMeta().Catalog.Pages = pages
+	if err := w.Put(pages, pdf.Dict{"Type": pdf.Name("Pages"), "Kids": pdf.Array{}, "Count": pdf.Integer(0)}); err != nil {
+		return "", err.Error()
+	}
+	secret := pdf.String("NEEDLE-MULTI-" + kind + "-" + mode)
+	var val pdf.Native = secret
+	switch kind {
+	case "array":
+		val = pdf.Array{pdf.Integer(7), secret}
+	case "dict":
+		val = pdf.Dict{"V": secret}
+	}
+	wenc := pdf.VerifWriterEnc(w)
+	fileKey := bytes.Clone(wenc.Sec().Key)
+	encV, _ := w.GetMeta().Trailer["Encrypt"].(pdf.Dict)["V"].(pdf.Integer)
+	method := methodOfCF(wenc.StrF(), int(encV))
+	ph := pdf.NewPlaceholder(w, 160)
+	refs := make([]pdf.Reference, n)
+	for i := range refs {
+		refs[i] = w.Alloc()
+		if i%2 == 1 {
+			refs[i] = pdf.NewReference(refs[i].Number(), uint16(i)) // different generations too
+		}
+		obj := pdf.Dict{"T": ph, "I": pdf.Integer(i)}
+		if i == 0 {
+			obj["T2"] = ph // twice in the same object
+		}
+		if err := w.Put(refs[i], obj); err != nil {
+			return "", "Put refused: " + err.Error()
+		}
+		if mode == "set-after-first" && i == 0 {
+			if err := ph.Set(val); err != nil {
+				return "", "Set refused: " + err.Error()
+			}
+		}
+	}
+	if mode != "set-after-first" {
+		if err := ph.Set(val); err != nil {
+			return "", "Set refused: " + err.Error()
+		}
+	}
+	if err := w.Close(); err != nil {
+		return "", "Close refused: " + err.Error()
+	}
+	data := out.Bytes()
+	if prop == "C10" {
+		if bytes.Contains(data, secret) || bytes.Contains(bytes.ToLower(data), []byte(hex.EncodeToString(secret))) {
+			return "C10-placeholder-string-plaintext", fmt.Sprintf("version %s, %s placeholder in %d objects (%s): the string is visible in the encrypted file", verName(version), kind, n, mode)
+		}
+		// every blank must hold the ciphertext under the key of the object it sits in: the
+		// stored strings are handed to the Spec (batch in auditPlaceholderSpec)
+		raw, err := auditOpen(data, "user")
+		if err != nil {
+			return "C10-placeholder-string-undecryptable", fmt.Sprintf("placeholder multi: %v", err)
+		}
+		defer raw.Close()
+		pdf.VerifReaderEnc(raw).DropFilters()
+		for _, ref := range refs {
+			obj, err := pdf.Resolve(raw, ref)
+			if err != nil {
+				continue
+			}
+			dict, _ := obj.(pdf.Dict)
+			for _, k := range []pdf.Name{"T", "T2"} {
+				v := dict[k]
+				target := ref
+				if r2, isRef := v.(pdf.Reference); isRef { // value written as an object of its own
+					target = r2
+					v, _ = pdf.Resolve(raw, r2)
+				}
+				var strs [][]byte
+				allStrings(v, &strs)
+				for _, st := range strs {
+					auditPhQueries = append(auditPhQueries, auditPhQuery{
+						op:     fmt.Sprintf("SEC spec.dec %s %s %d %d %s", method, hexWire(fileKey), target.Number(), target.Generation(), hexWire(st)),
+						want:   "ok " + hexWire(secret),
+						desc:   fmt.Sprintf("version %s: Placeholder holding a %s, formatted into %d objects (%s): the string stored in object %v entry /%s", verName(version), kind, n, mode, ref, k),
+						replay: fmt.Sprintf("phmulti %s %d %s %d %s", prop, int(version), kind, n, mode),
+					})
+				}
+			}
+		}
+		return "", "not visible"
+	}
+	for _, pw := range []string{"user", "owner"} {
+		rd, err := auditOpen(data, pw)
+		if err != nil {
+			return "C09-correct-password-rejected", fmt.Sprintf("placeholder multi: %v", err)
+		}
+		for i, ref := range refs {
+			obj, err := pdf.Resolve(rd, ref)
+			dict, _ := obj.(pdf.Dict)
+			keys := []pdf.Name{"T"}
+			if i == 0 {
+				keys = append(keys, "T2")
+			}
+			for _, k := range keys {
+				got, err2 := pdf.Resolve(rd, dict[k])
+				if err != nil || err2 != nil || wireNorm(got) != wireNorm(val) {
+					rd.Close()
+					return "C09-placeholder-string-not-recovered", fmt.Sprintf("version %s: a Placeholder holding a %s with a string was formatted into %d objects (%s) before Set; object %v entry /%s reads back (%s password) as %s, want %s (%v %v)", verName(version), kind, n, mode, ref, k, pw, wireNorm(got), wireNorm(val), err, err2)
+				}
+			}
+		}
+		rd.Close()
+	}
+	return "", "reads back"
+}
+
+type auditPhQuery struct{ op, want, desc, replay string }
+
+var auditPhQueries []auditPhQuery
+
+// auditPlaceholderSpec lets the Lean Spec decrypt every string a Placeholder
+// left in the files of auditPlaceholderMulti, each under its own object's key.
+func auditPlaceholderSpec(c *Ctx) {
+	qs := auditPhQueries
+	auditPhQueries = nil
+	if len(qs) == 0 {
+		return
+	}
+	ops := make([]string, len(qs))
+	for i := range qs {
+		ops[i] = qs[i].op
+	}
+	ans, err := askDriver(ops)
+	if err != nil {
+		panic("C10 needs the compiled Lean driver: " + err.Error())
+	}
+	for i, a := range ans {
+		if a == qs[i].want {
+			c.Emit(qs[i].op, a)
+			continue
+		}
+		c.Violate("audit", "C10-placeholder-string-wrong-key", fmt.Sprintf("%s does not decrypt under that object's key: the Spec answers %q, written was %q", qs[i].desc, a, qs[i].want), qs[i].replay)
+	}
+}
+
 // ---- the /Encrypt entry of the trailer between NewWriter and Close ----
 
 func auditTrailer(prop string, version pdf.Version, variant string) (key, desc string, refused bool) {
@@ -505,6 +703,79 @@ func auditTrailer(prop string, version pdf.Version, variant string) (key, desc s
 	return "", "opens", false
 }
 
+// auditIDSpec (C10): for every ID variant whose Close succeeds, the Lean Spec
+// must authenticate both passwords against the Encrypt dictionary and the /ID
+// which are actually in the trailer of the written file.
+func auditIDSpec(c *Ctx) {
+	type q struct {
+		op, variant, who string
+		v                pdf.Version
+	}
+	var qs []q
+	auditClassicalXRef = true
+	defer func() { auditClassicalXRef = false }()
+	for _, v := range []pdf.Version{pdf.V1_3, pdf.V1_4, pdf.V1_7} {
+		for _, variant := range auditIDVariants {
+			auditIDLast = nil
+			_, _, refused, _, _ := auditID(v, variant)
+			if refused || auditIDLast == nil {
+				c.Stat("audit-id-close-refused")
+				continue
+			}
+			c.Stat("audit-id-written")
+			dict, id0, ok := trailerEncrypt(auditIDLast)
+			if !ok {
+				c.Violate("audit", "C10-id-changed-after-newwriter", fmt.Sprintf("version %s, /ID %s: the written file has no readable /Encrypt and /ID in its trailer", verName(v), variant), fmt.Sprintf("id %d %s", int(v), variant))
+				continue
+			}
+			for _, who := range []string{"user", "owner"} {
+				qs = append(qs, q{fmt.Sprintf("SEC spec.auth %s %s %s %s", wire(dict), hexWire(id0), pwPDFDoc(who), pwSASL(who)), variant, who, v})
+			}
+		}
+	}
+	ops := make([]string, len(qs))
+	for i := range qs {
+		ops[i] = qs[i].op
+	}
+	ans, err := askDriver(ops)
+	if err != nil {
+		panic("C10 needs the compiled Lean driver: " + err.Error())
+	}
+	for i, a := range ans {
+		good := strings.Contains(a, qs[i].who+"=") && !strings.Contains(a, qs[i].who+"=!")
+		if good {
+			c.Emit(qs[i].op, a)
+			continue
+		}
+		c.Violate("audit", "C10-id-changed-after-newwriter", fmt.Sprintf("version %s, /ID %s before Close: Close succeeds, but the Spec cannot authenticate the %s password against the /ID in the trailer (%s)", verName(qs[i].v), qs[i].variant, qs[i].who, a), fmt.Sprintf("id %d %s", int(qs[i].v), qs[i].variant))
+	}
+}
+
+// trailerEncrypt finds /Encrypt and /ID[0] of a file with a classical or
+// stream trailer by opening it without a password and looking at the error
+// free parts: the Reader refuses, so the trailer is parsed here.
+func trailerEncrypt(data []byte) (pdf.Dict, []byte, bool) {
+	i := bytes.LastIndex(data, []byte("trailer"))
+	if i < 0 {
+		return nil, nil, false
+	}
+	s := pdf.NewVerifScanner(bytes.NewReader(data[i+len("trailer"):]), nil, nil)
+	if err := s.SkipWhiteSpace(); err != nil {
+		return nil, nil, false
+	}
+	d, err := s.ReadDict()
+	if err != nil {
+		return nil, nil, false
+	}
+	enc, ok1 := d["Encrypt"].(pdf.Dict)
+	ids, ok2 := d["ID"].(pdf.Array)
+	if !ok1 || !ok2 || len(ids) != 2 {
+		return nil, nil, false
+	}
+	id0, ok := ids[0].(pdf.String)
+	return enc, []byte(id0), ok
+}
+
 func replaySecAudit(input string) (bool, string) {
 	f := strings.Fields(input)
 	if len(f) == 0 {
@@ -518,6 +789,14 @@ func replaySecAudit(input string) (bool, string) {
 		}
 		fmt.Sscan(f[2], &v)
 		key, desc, _, _ := auditChain(f[1], pdf.Version(v), f[3], f[4])
+		return key == "", desc
+	case "phmulti":
+		if len(f) != 6 {
+			return true, "bad replay input"
+		}
+		fmt.Sscan(f[2], &v)
+		fmt.Sscan(f[4], &n)
+		key, desc := auditPlaceholderMulti(f[1], pdf.Version(v), f[3], n, f[5])
 		return key == "", desc
 	case "placeholder":
 		if len(f) != 4 {
